@@ -620,6 +620,51 @@ def protocol_rule(ctx):
                         th = lambda arr=arr, name=name, ax=ax: M.call_hook(__import__("sa.xeval", fromlist=["_NpAttr"])._NpAttr(name), [arr], {"axis": ax})
                     run(f"{'FeArray.' if route == 'method' else 'np.'}{name}(field{shape}, axis={ax})", th, want, keeps, f"red:{route}:{name}:{shape}:{ax}")
         run(f"field{shape}.integrate()", lambda X=X: M.attr_hook(X, "integrate")(), reduce_plain(XArray(X.shape, X.data), _UF["add"], 1), False, f"integrate:{shape}")
+    # a mask FIELD passed as where= selects points like an operand (Ne == nPg == dim collision); the untouched entries keep `out`
+    for (ne, npg, d) in ((2, 2, 2), (3, 2, 2)):
+        Mf = _mk("m", (ne, npg, d, d))
+        Of = _mk("o", (ne, npg, d, d))
+        msk = FeV((ne, npg), [bool((e + 2 * p) % 3 != 1) for e in range(ne) for p in range(npg)])
+        want = XArray(Of.shape, [(Mf[e, p, i, j] * 2 if msk[e, p] else Of[e, p, i, j]) for e in range(ne) for p in range(npg) for i in range(d) for j in range(d)])
+        run(f"np.multiply(field{Mf.shape}, 2, out=field, where=mask field{msk.shape})", lambda Mf=Mf, Of=Of, msk=msk: M.ufunc_call("multiply", (Mf, Q(2)), out=(FeV(Of.shape, list(Of.data)),), where=msk), want, True, f"where:mask-field:{(ne, npg, d)}")
+    # a ufunc with two outputs on two fields of the same shape
+    Ai = FeV((2, 2, 2), [Q(7 + 3 * k) for k in range(8)])
+    Bi = FeV((2, 2, 2), [Q(2 + (k % 3)) for k in range(8)])
+    r.instance()
+    try:
+        qr = M.ufunc_call("divmod", (Ai, Bi))
+        okq = isinstance(qr, tuple) and len(qr) == 2 and all(isinstance(x, FeV) and x.shape == (2, 2, 2) for x in qr) and all(qr[0].data[k] == Ai.data[k] // Bi.data[k] and qr[1].data[k] == Ai.data[k] % Bi.data[k] for k in range(8))
+        if okq:
+            r.ok("np.divmod(field, field): (quotient, remainder) fields")
+        else:
+            r.fail(f"{LA}.FeArray", "divmod:two-outputs", anchor.file, anchor.lineno, "FeArray", f"np.divmod(field(2,2,2), field(2,2,2)) gives {qr!r}, expected the pair of (quotient, remainder) fields")
+    except XRaise as e:
+        r.fail(f"{LA}.FeArray", "divmod:two-outputs", anchor.file, anchor.lineno, "FeArray", f"np.divmod(field(2,2,2), field(2,2,2)): raises {e} (a ufunc with two outputs returns a tuple; the same-shape fast path treats it as one array)")
+    # the variance METHOD: numpy computes it by arithmetic on the array as given (numpy/_core/_methods.py::_var: mean with
+    # keepdims, arr - mean, square, sum) -- on a subclass that arithmetic is dispatched back to the subclass
+    def plain_var(pl, ax):
+        nd = pl.ndim
+        axs = tuple(range(nd)) if ax is None else (ax if isinstance(ax, tuple) else (ax,))
+        cnt = 1
+        for a in axs:
+            cnt *= pl.shape[a % nd]
+        mean = UFuncM("add", _UF["add"]).reduce(pl, axis=ax, keepdims=True)
+        mean = XArray(mean.shape, [x * Q(1, cnt) for x in mean.data]) if isinstance(mean, XArray) else mean * Q(1, cnt)
+        d = XArray._binop(pl, mean, _UF["subtract"])
+        sq = XArray(d.shape, [x * x for x in d.data])
+        tot = reduce_plain(sq, _UF["add"], ax)
+        return XArray(tot.shape, [x * Q(1, cnt) for x in tot.data]) if isinstance(tot, XArray) else tot * Q(1, cnt)
+
+    from ..femodel import UFunc as UFuncM
+
+    for shape in ((3, 2, 2), (2, 2, 2)):
+        arr = _mk("q", shape, numeric=True)
+        for ax in (0, 1, 2, (0, 1), None):
+            pl = XArray(arr.shape, arr.data)
+            want = plain_var(pl, ax)
+            axs = () if ax is None else (ax if isinstance(ax, tuple) else (ax,))
+            keeps = ax is not None and all((a % 3) >= 2 for a in axs) and isinstance(want, XArray) and want.ndim >= 2
+            run(f"FeArray.var(field{shape}, axis={ax})", lambda arr=arr, ax=ax: M.attr_hook(arr, "var")(axis=ax), want, keeps, f"red:method:var:{shape}:{ax}")
     X = _mk("x", (2, 2, 2, 2))
     for new, keeps in (((2, 2, 4), True), ((2, 2, 4, 1), True), ((4, 4), False), ((2, 8), False), ((-1,), False), ((2, 2, -1), True)):
         want = XArray(X.shape, X.data).reshape(*new)
